@@ -7,6 +7,7 @@
 (*   textOut   the non-blank characters of all comment bodies of the output, in order             *)
 (*   codeIn / codeOut   the code tokens of input and output                                       *)
 (*   outc      the comments of the output: [kind, text]                                           *)
+(*   wrap      cmt_width is set (a long line comment may come out as several)                      *)
 EXTENDS Cmt, IOUtils
 TraceLog == ndJsonDeserialize(IOEnv.TRACE)
 VARIABLES l
@@ -16,12 +17,22 @@ Cat(ss) == IF ss = <<>> THEN "" ELSE Head(ss) \o Cat(Tail(ss))
 TextIn(e) == Cat([i \in 1..Len(e.file) |-> e.ctext[i]])
 Expected(e) == LET out == Out(e.file, e.o)
                IN [j \in 1..Len(out) |-> [kind |-> out[j].kind, text |-> Cat([n \in 1..Len(out[j].src) |-> e.ctext[out[j].src[n]]])]]
+(* cmt_width folds a line comment that is too long into several line comments: with e.wrap the    *)
+(* observed comments may refine an expected line comment (same kind, texts concatenate to it)       *)
+RECURSIVE Matches(_, _, _)
+Matches(exp, ob, wrap) ==
+   IF exp = <<>> THEN ob = <<>>
+   ELSE \E k \in 1..Len(ob) :
+           /\ (k > 1 => wrap /\ Head(exp).kind = "cpp")
+           /\ \A n \in 1..k : ob[n].kind = Head(exp).kind
+           /\ Cat([n \in 1..k |-> ob[n].text]) = Head(exp).text
+           /\ Matches(Tail(exp), SubSeq(ob, k + 1, Len(ob)), wrap)
 TNext == /\ l <= Len(TraceLog) /\ l' = l + 1 /\ UNCHANGED file
          /\ LET e == Ev
                 bad == IF e.rc # 0 THEN {} ELSE
                        (IF e.textOut # TextIn(e) THEN {"TextKept"} ELSE {}) \cup
                        (IF e.codeOut # e.codeIn THEN {"CodeKept"} ELSE {})
-                drift == IF e.rc = 0 /\ bad = {} /\ e.outc # Expected(e) THEN {"GroupingAsModel"} ELSE {}
+                drift == IF e.rc = 0 /\ bad = {} /\ ~Matches(Expected(e), e.outc, e.wrap) THEN {"GroupingAsModel"} ELSE {}
             IN (bad # {} \/ drift # {}) => PrintT("@@" \o ToJson([l |-> l, id |-> e.id, bad |-> bad, drift |-> drift, expected |-> Expected(e)]))
 TInit == l = 1 /\ file = <<>>
 TSpec == TInit /\ [][TNext]_<<l, file>>
